@@ -540,6 +540,7 @@ func (c *Ctx) execInstr(fr *Frame, b *ssa.BasicBlock, idx int, in ssa.Instructio
 
 func (c *Ctx) bumpHeap(st *State) string {
 	st.heapTop = c.define(st, "ht", "Int", "(+ "+st.heapTop+" 1)")
+	st.ownRoots = st.ownRoots.push(st.heapTop)
 	return "(base " + st.heapTop + ")"
 }
 
@@ -600,7 +601,11 @@ func (c *Ctx) execUnOp(st *State, fr *Frame, x *ssa.UnOp) {
 				return
 			}
 		}
-		c.bind(st, fr, x, c.load(st, v.S, x.Type()))
+		ld := c.load(st, v.S, x.Type())
+		if g, ok := x.X.(*ssa.Global); ok && c.eng.db.Sentinels[g.Pkg.Pkg.Path()+"."+g.Name()] {
+			st.assume("(and (not (= " + ld.S + " nil_iface)) (tag_is_ptr (itag " + ld.S + ")) (= " + ld.S + " " + c.sentinelConst(g.Pkg.Pkg.Path()+"."+g.Name()) + "))")
+		}
+		c.bind(st, fr, x, ld)
 	case token.NOT:
 		c.bind(st, fr, x, T{S: c.define(st, "b", "Bool", not(v.S)), So: "Bool", Ty: x.Type()})
 	case token.SUB:
@@ -1115,4 +1120,11 @@ func (c *Ctx) ghostZero(st *State, addr string, ptrT types.Type) {
 		owner := fmt.Sprintf("(mk_iface %d %s)", c.reg.TagOf(ptrT), addr)
 		st.assume("(= (select " + c.mem(st, mk) + " " + owner + ") " + zero + ")")
 	}
+}
+
+// sentinelConst: the (never reassigned) value of a sentinel error variable.
+func (c *Ctx) sentinelConst(full string) string {
+	n := "sentinel_" + sanitize(full)
+	c.reg.AddDecl("sentinel:"+full, "(declare-const "+n+" Iface)\n(assert (not (= "+n+" nil_iface)))")
+	return n
 }
